@@ -55,31 +55,34 @@ def spaceLike : Bytes → Bool
   | [] => false
   | b :: rest => b == SP || b == TAB || (b == SL && (match rest with | c :: _ => c == ST || c == SL | [] => false))
 
-/-- the loop of scanSpaceToken: length of the SPACE token starting at `s`; `none` = panic
-("No comment end found.").  One iteration: blanks, tabs, one block comment, one line comment. -/
+/-- the optional line comment at the end of one round: (bytes consumed so far + its length, rest) -/
+def lineComment (n : Nat) (s3 : Bytes) : Nat × Bytes :=
+  let n4 := if startsWith2 SL SL s3 then toEOL s3 else 0
+  (n + n4, s3.drop n4)
+
+/-- one iteration of the loop of scanSpaceToken: blanks, tabs, one block comment, one line comment;
+`none` = panic ("No comment end found."); result = (bytes consumed, rest) -/
+def spaceRound (s : Bytes) : Option (Nat × Bytes) :=
+  let n1 := runOf SP s
+  let s1 := s.drop n1
+  let n2 := runOf TAB s1
+  let s2 := s1.drop n2
+  if startsWith2 SL ST s2 then
+    match findClose (s2.drop 2) with
+    | none => none
+    | some k => some (lineComment (n1 + n2 + (k + 4)) (s2.drop (k + 4)))
+  else some (lineComment (n1 + n2) s2)
+
+/-- the loop of scanSpaceToken: length of the SPACE token starting at `s`; `none` = panic -/
 def spaceLen : (fuel : Nat) → Bytes → Option Nat
   | 0, _ => some 0
   | fuel + 1, s =>
     if !spaceLike s then some 0
     else
-      let n1 := runOf SP s
-      let s1 := s.drop n1
-      let n2 := runOf TAB s1
-      let s2 := s1.drop n2
-      -- block comment
-      let r3 : Option (Nat × Bytes) :=
-        if startsWith2 SL ST s2 then
-          match findClose (s2.drop 2) with
-          | none => none
-          | some k => some (k + 4, s2.drop (k + 4))
-        else some (0, s2)
-      match r3 with
+      match spaceRound s with
       | none => none
-      | some (n3, s3) =>
-        let n4 := if startsWith2 SL SL s3 then toEOL s3 else 0
-        let s4 := s3.drop n4
-        let step := n1 + n2 + n3 + n4
-        if step = 0 then some 0      -- cannot happen when spaceLike s (proved: `spaceLen_progress`)
+      | some (step, s4) =>
+        if step = 0 then some 0      -- cannot happen when spaceLike s (proved: `spaceRound_pos`)
         else (spaceLen fuel s4).map (· + step)
 
 /-- scanIdentifierToken: 1 + the run of [A-Za-z0-9_] after the first byte -/
@@ -108,6 +111,46 @@ def strTok (kind : String) (off total : Nat) (r : Except Err (Bytes × Bytes)) :
   match r with
   | .ok (v, rest) => .tok { kind := kind, beginOff := off, len := total - rest.length, sval := v }
   | .error _ => .panic
+
+/-- the punctuation and operator tokens (the rest of the `switch` of scanTokenAt) -/
+def scanPunct (b : UInt8) (rest : Bytes) : Res :=
+    if b = 61 then one "EQ"
+    else if b = NL then one "EOL"
+    else if b = 40 then one "LPAREN"
+    else if b = 41 then one "RPAREN"
+    else if b = 123 then one "LBRACE"
+    else if b = 125 then one "RBRACE"
+    else if b = 91 then one "LSBRACKET"
+    else if b = 93 then one "RSBRACKET"
+    else if b = 58 then one "COLON"
+    else if b = 44 then one "COMMA"
+    else if b = 46 then one "DOT"
+    else if b = 59 then one "SEMICOLON"
+    else if b = 124 then
+      match rest with
+      | 62 :: _ => two "PIPE"
+      | 124 :: _ => two "BARBAR"
+      | _ => one "BAR"
+    else if b = 60 then
+      match rest with
+      | 62 :: _ => two "BRACKET"
+      | 61 :: _ => two "LE"
+      | _ => one "LT"
+    else if b = 62 then
+      match rest with
+      | 61 :: _ => two "GE"
+      | _ => one "GT"
+    else if b = 43 then one "PLUS"
+    else if b = 38 then
+      match rest with
+      | 38 :: _ => two "AMPAMP"
+      | _ => one "AMP"
+    else if b = 42 then one "ASTER"
+    else if b = 45 then
+      match rest with
+      | 62 :: _ => two "RARROW"
+      | _ => one "MINUS"
+    else .panic
 
 /-- `scanTokenAt(buf, pos)` on the suffix `s = buf[pos:]` -/
 def scanTokenAt (s : Bytes) : Res :=
@@ -145,43 +188,7 @@ def scanTokenAt (s : Bytes) : Res :=
         else if c = BT then strTok "SINTERP" 1 (s.length - 1) (scanRaw rest')
         else .panic
       | [] => .panic
-    else if b = 61 then one "EQ"
-    else if b = NL then one "EOL"
-    else if b = 40 then one "LPAREN"
-    else if b = 41 then one "RPAREN"
-    else if b = 123 then one "LBRACE"
-    else if b = 125 then one "RBRACE"
-    else if b = 91 then one "LSBRACKET"
-    else if b = 93 then one "RSBRACKET"
-    else if b = 58 then one "COLON"
-    else if b = 44 then one "COMMA"
-    else if b = 46 then one "DOT"
-    else if b = 59 then one "SEMICOLON"
-    else if b = 124 then
-      match rest with
-      | 62 :: _ => two "PIPE"
-      | 124 :: _ => two "BARBAR"
-      | _ => one "BAR"
-    else if b = 60 then
-      match rest with
-      | 62 :: _ => two "BRACKET"
-      | 61 :: _ => two "LE"
-      | _ => one "LT"
-    else if b = 62 then
-      match rest with
-      | 61 :: _ => two "GE"
-      | _ => one "GT"
-    else if b = 43 then one "PLUS"
-    else if b = 38 then
-      match rest with
-      | 38 :: _ => two "AMPAMP"
-      | _ => one "AMP"
-    else if b = 42 then one "ASTER"
-    else if b = 45 then
-      match rest with
-      | 62 :: _ => two "RARROW"
-      | _ => one "MINUS"
-    else .panic
+    else scanPunct b rest
 
 /-- total extent of a token from `pos`: beginOff + len -/
 def Tok.extent (t : Tok) : Nat := t.beginOff + t.len
